@@ -12,17 +12,33 @@
 //! path <name> base=<ok|err>   (x every entry path)
 //! ```
 //!
-//! Every `path` line is executed on a *fresh* world built by the same deterministic recipe, with the
+//! Vault variants additionally send every vault entry point from INSIDE a flash-loan callback of the vault
+//! under test (the vault's loan counter is non-zero at that moment):
+//!
+//! ```text
+//! inloan <d|r|rs> <inner path> <p|c> <x|g> base=<ok|err|panic> ibase=<ok|err|na> fbase=<ok|err|panic|na>
+//! ```
+//!
+//! `d`: the borrower contract takes the loan directly; `r`: the loan is taken through the vault router and
+//! the borrower contract acts from the router's payload; `rs`: the vault router itself (the vault's direct
+//! borrower) sends the inner message as a payload message.  `p`: the inner message is a plain message (its
+//! error fails the whole transaction); `c`: it is a sub-message whose result the borrower records in its
+//! `reply` (event attribute `inner_result`) before repaying.  `x`: the loan is repaid exactly, `g`: generously
+//! (covers whatever the inner message took out of the vault).  `base` / `ibase` are the transaction's and the
+//! recorded inner outcome on the never-paused twin, `fbase` the twin outcome of the same loan around a
+//! message that fails (`c` lines).
+//!
+//! Every `path` / `inloan` line is executed on a *fresh* world built by the same deterministic recipe, with the
 //! case's `set` history replayed on it; `base` is the outcome of the same path on the twin world whose
 //! switches were never touched.  Before the path's main transaction the engine snapshots all bank
 //! balances and the raw storage of every contract in the world (cw20 tokens included).
 use crate::common::*;
 use cosmwasm_std::{
-    coin, coins, to_json_binary, Addr, BankMsg, Binary, Coin, CosmosMsg, Decimal, Empty, Response, StdError, Uint128,
-    WasmMsg,
+    coin, coins, to_json_binary, Addr, BankMsg, Binary, Coin, CosmosMsg, Decimal, Deps, DepsMut, Empty, Env, MessageInfo,
+    Reply, Response, StdError, SubMsg, SubMsgResult, Uint128, WasmMsg,
 };
 use cw20::Cw20ExecuteMsg;
-use cw_multi_test::{App, AppBuilder, BankKeeper, ContractWrapper, Executor};
+use cw_multi_test::{App, AppBuilder, AppResponse, BankKeeper, ContractWrapper, Executor};
 use serde::{Deserialize, Serialize};
 use std::collections::BTreeMap;
 use white_whale_std::fee::{Fee, VaultFee};
@@ -30,22 +46,42 @@ use white_whale_std::pool_network::asset::{Asset, AssetInfo, PairInfo, PairType,
 use white_whale_std::pool_network::{factory as pf, frontend_helper as fh, incentive_factory as incf, pair, router, trio};
 use white_whale_std::vault_network::{vault, vault_factory as vf, vault_router as vr};
 
+/// The borrower mock.  `Run` sends the messages as plain messages (any error fails the transaction that
+/// called it).  `Try` sends `pre`, then `inner` as a sub-message with `reply_on: always` — a failing `inner`
+/// is rolled back on its own, `reply` reports what happened in the event attributes `inner_result` /
+/// `inner_err` — then `post`.  `Fail` fails.
 #[derive(Debug, Deserialize, Clone, Serialize)]
 #[serde(rename_all = "snake_case")]
 pub enum AdvMsg {
     Run { msgs: Vec<CosmosMsg> },
+    Try { pre: Vec<CosmosMsg>, inner: CosmosMsg, post: Vec<CosmosMsg> },
+    Fail {},
+}
+
+fn adv_execute(_d: DepsMut, _e: Env, _i: MessageInfo, msg: AdvMsg) -> Result<Response, StdError> {
+    match msg {
+        AdvMsg::Run { msgs } => Ok(Response::new().add_messages(msgs)),
+        AdvMsg::Try { pre, inner, post } => {
+            Ok(Response::new().add_messages(pre).add_submessage(SubMsg::reply_always(inner, 1)).add_messages(post))
+        }
+        AdvMsg::Fail {} => Err(StdError::generic_err("borrower fails on purpose")),
+    }
+}
+fn adv_instantiate(_d: DepsMut, _e: Env, _i: MessageInfo, _m: Empty) -> Result<Response, StdError> {
+    Ok(Response::new())
+}
+fn adv_query(_d: Deps, _e: Env, _m: Empty) -> Result<Binary, StdError> {
+    Err(StdError::generic_err("no query"))
+}
+fn adv_reply(_d: DepsMut, _e: Env, msg: Reply) -> Result<Response, StdError> {
+    Ok(match msg.result {
+        SubMsgResult::Ok(_) => Response::new().add_attribute("inner_result", "ok"),
+        SubMsgResult::Err(e) => Response::new().add_attribute("inner_result", "err").add_attribute("inner_err", e),
+    })
 }
 
 fn adv_contract() -> Box<dyn cw_multi_test::Contract<Empty>> {
-    Box::new(ContractWrapper::new(
-        |_d, _e, _i, msg: AdvMsg| -> Result<Response, StdError> {
-            match msg {
-                AdvMsg::Run { msgs } => Ok(Response::new().add_messages(msgs)),
-            }
-        },
-        |_d, _e, _i, _m: Empty| -> Result<Response, StdError> { Ok(Response::new()) },
-        |_d, _e, _m: Empty| -> Result<Binary, StdError> { Err(StdError::generic_err("no query")) },
-    ))
+    Box::new(ContractWrapper::new(adv_execute, adv_instantiate, adv_query).with_reply(adv_reply))
 }
 
 #[derive(Clone, Copy, PartialEq, Eq, Debug, PartialOrd, Ord)]
@@ -117,7 +153,81 @@ pub const VAULT_PATHS: &[(&str, Option<usize>)] = &[
     ("vaultFlashLoan", Some(2)),
     ("vaultRouterLoan", Some(2)),
     ("vaultCollectFees", None),
+    // entry points no switch names and that an outsider may never use: must be refused under every combination
+    ("vaultConfigStranger", None),
+    ("vaultCallbackExternal", None),
 ];
+
+/// who takes the loan of an `inloan` line
+#[derive(Clone, Copy, PartialEq, Eq, Debug, PartialOrd, Ord)]
+pub enum Outer {
+    /// the borrower contract calls `FlashLoan` on the vault
+    Direct,
+    /// the vault router borrows (`vault_router::FlashLoan`); its payload calls the borrower contract, which
+    /// sends the inner message
+    Router,
+    /// the vault router borrows and sends the inner message itself (a payload message)
+    RouterSends,
+}
+impl Outer {
+    fn parse(s: &str) -> Option<Outer> {
+        Some(match s {
+            "d" => Outer::Direct,
+            "r" => Outer::Router,
+            "rs" => Outer::RouterSends,
+            _ => return None,
+        })
+    }
+    fn name(self) -> &'static str {
+        match self {
+            Outer::Direct => "d",
+            Outer::Router => "r",
+            Outer::RouterSends => "rs",
+        }
+    }
+}
+
+/// a flash loan whose borrower sends one vault message from inside the callback
+#[derive(Clone, PartialEq, Eq, Debug, PartialOrd, Ord)]
+pub struct InLoan {
+    pub outer: Outer,
+    /// one of `VAULT_PATHS`
+    pub inner: String,
+    /// the inner message is a sub-message whose result is recorded (else a plain message)
+    pub catch: bool,
+    /// generous repayment (else exact)
+    pub gen: bool,
+    /// reference transaction: same `pre` / `post`, the inner message replaced by one that fails without
+    /// touching the vault
+    pub dummy: bool,
+}
+impl InLoan {
+    fn token(&self) -> String {
+        format!(
+            "inloan {} {} {} {}{}",
+            self.outer.name(),
+            self.inner,
+            if self.catch { "c" } else { "p" },
+            if self.gen { "g" } else { "x" },
+            if self.dummy { " (inner replaced by a failing message)" } else { "" }
+        )
+    }
+}
+
+/// one judged transaction
+#[derive(Clone, PartialEq, Eq, Debug, PartialOrd, Ord)]
+pub enum Job {
+    Path(String),
+    InLoan(InLoan),
+}
+impl Job {
+    fn key(&self) -> String {
+        match self {
+            Job::Path(p) => p.clone(),
+            Job::InLoan(j) => j.token(),
+        }
+    }
+}
 fn paths_of(k: Kind) -> &'static [(&'static str, Option<usize>)] {
     if k.is_pair() {
         PAIR_PATHS
@@ -522,6 +632,13 @@ impl World {
         };
         if funded {
             w.vault_deposit(LIQ).unwrap();
+            // the borrower contract holds LP shares too (it can send a withdrawal from inside a callback) …
+            let (alice, lp, adv) = (w.alice.clone(), w.lp.clone(), w.adv.clone().unwrap());
+            w.app
+                .execute_contract(alice, lp, &Cw20ExecuteMsg::Transfer { recipient: adv.to_string(), amount: (LIQ / 10).into() }, &[])
+                .unwrap();
+            // … and an earlier loan has left protocol fees pending (so that fee collection moves something)
+            w.run_path("vaultFlashLoan", LIQ / 2).unwrap();
         }
         w
     }
@@ -1014,9 +1131,213 @@ impl World {
                 ))
             }
             "vaultCollectFees" => ex(self.app.execute_contract(alice, target, &vault::ExecuteMsg::CollectProtocolFees {}, &[])),
+            "vaultConfigStranger" => ex(self.app.execute_contract(alice, target, &Self::stranger_config(), &[])),
+            "vaultCallbackExternal" => ex(self.app.execute_contract(alice, target, &Self::external_callback(), &[])),
             _ => Err("unknown path".into()),
         }
     }
+
+    fn stranger_config() -> vault::ExecuteMsg {
+        vault::ExecuteMsg::UpdateConfig(vault::UpdateConfigParams {
+            flash_loan_enabled: Some(false),
+            deposit_enabled: Some(false),
+            withdraw_enabled: Some(false),
+            new_owner: None,
+            new_vault_fees: None,
+            new_fee_collector_addr: None,
+        })
+    }
+    fn external_callback() -> vault::ExecuteMsg {
+        vault::ExecuteMsg::Callback(vault::CallbackMsg::AfterTrade { old_balance: Uint128::zero(), loan_amount: Uint128::zero() })
+    }
+
+    // ------------------------------------------------------------------ inside a flash-loan callback
+    fn wasm<T: Serialize>(to: &Addr, msg: &T, funds: Vec<Coin>) -> CosmosMsg {
+        WasmMsg::Execute { contract_addr: to.to_string(), msg: to_json_binary(msg).unwrap(), funds }.into()
+    }
+    fn payback(&self, amount: u128) -> u128 {
+        let p: vault::PaybackAmountResponse = self
+            .app
+            .wrap()
+            .query_wasm_smart(&self.target, &vault::QueryMsg::GetPaybackAmount { amount: amount.into() })
+            .unwrap();
+        p.payback_amount.u128()
+    }
+    fn vault_balance(&self) -> u128 {
+        if self.kind == Kind::VNative {
+            self.app.wrap().query_balance(&self.target, "uluna").unwrap().amount.u128()
+        } else {
+            let b: cw20::BalanceResponse = self
+                .app
+                .wrap()
+                .query_wasm_smart(&self.token, &cw20::Cw20QueryMsg::Balance { address: self.target.to_string() })
+                .unwrap();
+            b.balance.u128()
+        }
+    }
+
+    /// The message `inner` as sent by whoever acts inside the callback (it spends the sender's own asset /
+    /// LP holdings), preceded by the messages that prepare it (`pre`: a cw20 allowance for a deposit).
+    fn inner_msgs(&self, inner: &str, amt: u128) -> Option<(Vec<CosmosMsg>, CosmosMsg)> {
+        let target = self.target.clone();
+        let adv = self.adv.clone().unwrap();
+        let half = (amt / 2).max(1);
+        Some(match inner {
+            "vaultDeposit" => {
+                if self.kind == Kind::VNative {
+                    (vec![], Self::wasm(&target, &vault::ExecuteMsg::Deposit { amount: amt.into() }, coins(amt, "uluna")))
+                } else {
+                    (
+                        vec![Self::wasm(
+                            &self.token,
+                            &Cw20ExecuteMsg::IncreaseAllowance { spender: target.to_string(), amount: amt.into(), expires: None },
+                            vec![],
+                        )],
+                        Self::wasm(&target, &vault::ExecuteMsg::Deposit { amount: amt.into() }, vec![]),
+                    )
+                }
+            }
+            "vaultWithdrawHook" => (
+                vec![],
+                Self::wasm(
+                    &self.lp,
+                    &Cw20ExecuteMsg::Send {
+                        contract: target.to_string(),
+                        amount: (amt / 10).into(),
+                        msg: to_json_binary(&vault::Cw20HookMsg::Withdraw {}).unwrap(),
+                    },
+                    vec![],
+                ),
+            ),
+            "vaultWithdrawDirect" => (vec![], Self::wasm(&target, &vault::ExecuteMsg::Withdraw {}, coins((amt / 10).max(1), "uluna"))),
+            "vaultFlashLoan" => {
+                // a second loan from the lending vault; its callback would repay it in full
+                let repay = AdvMsg::Run { msgs: vec![self.pay_msg(&target, self.payback(half))] };
+                (vec![], Self::wasm(&target, &vault::ExecuteMsg::FlashLoan { amount: half.into(), msg: to_json_binary(&repay).unwrap() }, vec![]))
+            }
+            "vaultRouterLoan" => {
+                let vrouter = self.router.clone().unwrap();
+                let fees = self.payback(half) - half;
+                let payload = Self::wasm(&adv, &AdvMsg::Run { msgs: vec![self.pay_msg(&vrouter, fees + 7)] }, vec![]);
+                (
+                    vec![],
+                    Self::wasm(
+                        &vrouter,
+                        &vr::ExecuteMsg::FlashLoan { assets: vec![Asset { info: self.vault_asset(), amount: half.into() }], msgs: vec![payload] },
+                        vec![],
+                    ),
+                )
+            }
+            "vaultCollectFees" => (vec![], Self::wasm(&target, &vault::ExecuteMsg::CollectProtocolFees {}, vec![])),
+            "vaultConfigStranger" => (vec![], Self::wasm(&target, &Self::stranger_config(), vec![])),
+            "vaultCallbackExternal" => (vec![], Self::wasm(&target, &Self::external_callback(), vec![])),
+            _ => return None,
+        })
+    }
+
+    /// the single judged transaction of an `inloan` line
+    pub fn run_inloan(&mut self, j: &InLoan, amt: u128) -> Result<AppResponse, String> {
+        let alice = self.alice.clone();
+        let target = self.target.clone();
+        let adv = self.adv.clone().unwrap();
+        let vrouter = self.router.clone().unwrap();
+        let (pre, mut inner) = self.inner_msgs(&j.inner, amt).ok_or("unknown inner path")?;
+        if j.dummy {
+            inner = Self::wasm(&adv, &AdvMsg::Fail {}, vec![]);
+        }
+        let payback = self.payback(amt);
+        let generous: Vec<CosmosMsg> = if j.gen { vec![self.pay_msg(&target, LIQ)] } else { vec![] };
+        // what the borrower contract does when it is called from inside the loan
+        let act = |post: Vec<CosmosMsg>| -> AdvMsg {
+            if j.catch {
+                AdvMsg::Try { pre: pre.clone(), inner: inner.clone(), post }
+            } else {
+                let mut msgs = pre.clone();
+                msgs.push(inner.clone());
+                msgs.extend(post);
+                AdvMsg::Run { msgs }
+            }
+        };
+        let r = match j.outer {
+            Outer::Direct => {
+                let mut post = vec![self.pay_msg(&target, payback)];
+                post.extend(generous);
+                let loan = Self::wasm(
+                    &target,
+                    &vault::ExecuteMsg::FlashLoan { amount: amt.into(), msg: to_json_binary(&act(post)).unwrap() },
+                    vec![],
+                );
+                self.app.execute_contract(alice, adv, &AdvMsg::Run { msgs: vec![loan] }, &[])
+            }
+            Outer::Router => {
+                // the router repays the vault itself (`CompleteLoan`); the borrower contract hands it the fees
+                let mut post = vec![self.pay_msg(&vrouter, payback - amt + 7)];
+                post.extend(generous);
+                let payload = Self::wasm(&adv, &act(post), vec![]);
+                self.app.execute_contract(
+                    alice,
+                    vrouter,
+                    &vr::ExecuteMsg::FlashLoan { assets: vec![Asset { info: self.vault_asset(), amount: amt.into() }], msgs: vec![payload] },
+                    &[],
+                )
+            }
+            Outer::RouterSends => {
+                if j.catch {
+                    return Err("the router does not catch".into());
+                }
+                // the router is handed what the inner message spends, then sends it as its own message
+                let mut give = vec![self.pay_msg(&vrouter, amt)];
+                if j.inner == "vaultWithdrawHook" {
+                    give.push(Self::wasm(&self.lp, &Cw20ExecuteMsg::Transfer { recipient: vrouter.to_string(), amount: (amt / 10).into() }, vec![]));
+                }
+                let mut post = vec![self.pay_msg(&vrouter, payback - amt + 7)];
+                post.extend(generous);
+                let mut payload = vec![Self::wasm(&adv, &AdvMsg::Run { msgs: give }, vec![])];
+                payload.extend(pre.clone());
+                payload.push(inner.clone());
+                payload.push(Self::wasm(&adv, &AdvMsg::Run { msgs: post }, vec![]));
+                self.app.execute_contract(
+                    alice,
+                    vrouter,
+                    &vr::ExecuteMsg::FlashLoan { assets: vec![Asset { info: self.vault_asset(), amount: amt.into() }], msgs: payload },
+                    &[],
+                )
+            }
+        };
+        r.map_err(|e| format!("{e:#}"))
+    }
+
+    /// preparatory transactions of a job; not part of the judged transaction
+    pub fn prepare_job(&mut self, job: &Job, amt: u128) {
+        match job {
+            Job::Path(p) => self.prepare(p, amt),
+            Job::InLoan(_) => {
+                // a vault without liquidity cannot lend: give it a plain transfer (no shares exist)
+                if self.vault_balance() == 0 {
+                    let (admin, target) = (self.admin.clone(), self.target.clone());
+                    let m = self.pay_msg(&target, 2 * amt + 10);
+                    self.app.execute(admin, m).unwrap();
+                }
+            }
+        }
+    }
+}
+
+/// the borrower's record of the inner message: `Some(true)` ok, `Some(false)` failed (+ the error text)
+fn inner_record(r: &AppResponse) -> (Option<bool>, String) {
+    let mut rec = None;
+    let mut err = String::new();
+    for e in &r.events {
+        for a in &e.attributes {
+            if a.key == "inner_result" {
+                rec = Some(a.value == "ok");
+            }
+            if a.key == "inner_err" {
+                err = a.value.clone();
+            }
+        }
+    }
+    (rec, err)
 }
 
 fn ex<T, E: std::fmt::Display>(r: Result<T, E>) -> Result<(), String> {
@@ -1030,6 +1351,13 @@ pub struct PathRun {
     pub err: String,
     pub unchanged: bool,
     pub after_mod_cfg: Snapshot,
+    /// the full snapshot after the transaction (switches included)
+    pub after: Snapshot,
+    /// the switches as `Config{}` reports them after the transaction
+    pub flags_after: [bool; 3],
+    /// `inloan`, catch mode, committed: what the borrower recorded for the inner message
+    pub inner: Option<bool>,
+    pub inner_err: String,
 }
 impl PathRun {
     pub fn ok(&self) -> bool {
@@ -1047,7 +1375,7 @@ pub enum CfgWrite {
     Touch,
 }
 
-pub fn run_on_fresh(kind: Kind, funded: bool, sets: &[[bool; 3]], writes: &[CfgWrite], path: &str, amt: u128) -> Outcome<PathRun> {
+pub fn run_on_fresh(kind: Kind, funded: bool, sets: &[[bool; 3]], writes: &[CfgWrite], job: &Job, amt: u128) -> Outcome<PathRun> {
     guarded(|| -> Result<PathRun, String> {
         let mut w = World::build(kind, funded);
         let mut cur = [true, true, true];
@@ -1055,15 +1383,40 @@ pub fn run_on_fresh(kind: Kind, funded: bool, sets: &[[bool; 3]], writes: &[CfgW
             w.write_cfg(wr, cur)?;
             cur = *f;
         }
-        w.prepare(path, amt);
+        w.prepare_job(job, amt);
         let before = w.snapshot();
-        let (outcome, err) = match guarded(|| w.run_path(path, amt)) {
-            Outcome::Ok(()) => ("ok", String::new()),
-            Outcome::Err(e) => ("err", e),
-            Outcome::Panic => ("panic", String::new()),
+        let mut inner = None;
+        let mut inner_err = String::new();
+        let (outcome, err) = match job {
+            Job::Path(path) => match guarded(|| w.run_path(path, amt)) {
+                Outcome::Ok(()) => ("ok", String::new()),
+                Outcome::Err(e) => ("err", e),
+                Outcome::Panic => ("panic", String::new()),
+            },
+            Job::InLoan(j) => match guarded(|| w.run_inloan(j, amt)) {
+                Outcome::Ok(r) => {
+                    (inner, inner_err) = inner_record(&r);
+                    ("ok", String::new())
+                }
+                Outcome::Err(e) => ("err", e),
+                Outcome::Panic => ("panic", String::new()),
+            },
         };
         let after = w.snapshot();
-        Ok(PathRun { outcome, err, unchanged: before == after, after_mod_cfg: w.snapshot_modulo_config() })
+        let flags_after = match guarded(|| -> Result<[bool; 3], String> { Ok(w.flags()) }) {
+            Outcome::Ok(f) => f,
+            _ => cur,
+        };
+        Ok(PathRun {
+            outcome,
+            err,
+            unchanged: before == after,
+            after_mod_cfg: w.snapshot_modulo_config(),
+            after,
+            flags_after,
+            inner,
+            inner_err,
+        })
     })
 }
 
@@ -1079,7 +1432,15 @@ pub struct Toggles {
     writes: Vec<CfgWrite>,
     world: Option<World>,
     plan: Vec<String>,
-    twin: BTreeMap<(Kind, bool, u128, String), (&'static str, Snapshot)>,
+    twin: BTreeMap<(Kind, bool, u128, String), Twin>,
+}
+
+/// what a job did on the never-paused twin world
+#[derive(Clone)]
+pub struct Twin {
+    pub outcome: &'static str,
+    pub after: Snapshot,
+    pub inner: Option<bool>,
 }
 
 impl Toggles {
@@ -1099,19 +1460,85 @@ impl Toggles {
         }
     }
 
-    fn twin_of(&mut self, path: &str) -> (&'static str, Snapshot) {
-        let key = (self.kind, self.funded, self.amt, path.to_string());
+    fn twin_of(&mut self, job: &Job) -> Twin {
+        let key = (self.kind, self.funded, self.amt, job.key());
         if let Some(v) = self.twin.get(&key) {
             return v.clone();
         }
-        let v = match run_on_fresh(self.kind, self.funded, &[], &[], path, self.amt) {
-            Outcome::Ok(r) => (r.outcome, r.after_mod_cfg),
-            _ => ("broken", vec![]),
+        let v = match run_on_fresh(self.kind, self.funded, &[], &[], job, self.amt) {
+            Outcome::Ok(r) => Twin { outcome: r.outcome, after: r.after_mod_cfg, inner: r.inner },
+            _ => Twin { outcome: "broken", after: vec![], inner: None },
         };
-        if self.twin.len() > 400 {
+        if self.twin.len() > 1200 {
             self.twin.clear();
         }
         self.twin.insert(key, v.clone());
+        v
+    }
+
+    /// the three twin outcomes an `inloan` line carries for the model: the transaction's, the recorded
+    /// inner one (`na`: the twin's transaction did not commit, or the inner message was a plain message and
+    /// the transaction failed), and the transaction's when the inner message is one that fails (`c` lines)
+    fn inloan_bases(&mut self, j: &InLoan) -> (String, String, String) {
+        let t = self.twin_of(&Job::InLoan(j.clone()));
+        let ibase = if t.outcome != "ok" {
+            "na"
+        } else {
+            match t.inner {
+                Some(true) => "ok",
+                Some(false) => "err",
+                // a committed transaction around a plain message: the message succeeded
+                None => "ok",
+            }
+        };
+        let fbase = if j.catch {
+            let mut d = j.clone();
+            d.dummy = true;
+            self.twin_of(&Job::InLoan(d)).outcome.to_string()
+        } else {
+            "na".to_string()
+        };
+        (t.outcome.to_string(), ibase.to_string(), fbase)
+    }
+
+    fn parse_inloan(ws: &[&str]) -> Option<InLoan> {
+        if ws.len() < 5 {
+            return None;
+        }
+        let outer = Outer::parse(ws[1])?;
+        let inner = ws[2].to_string();
+        VAULT_PATHS.iter().find(|(n, _)| *n == inner)?;
+        let catch = match ws[3] {
+            "p" => false,
+            "c" => true,
+            _ => return None,
+        };
+        let gen = match ws[4] {
+            "x" => false,
+            "g" => true,
+            _ => return None,
+        };
+        if outer == Outer::RouterSends && catch {
+            return None;
+        }
+        Some(InLoan { outer, inner, catch, gen, dummy: false })
+    }
+
+    /// every `inloan` combination: 3 senders x 8 inner entry points x plain / caught x exact / generous
+    fn inloan_matrix() -> Vec<InLoan> {
+        let mut v = vec![];
+        for outer in [Outer::Direct, Outer::Router, Outer::RouterSends] {
+            for (inner, _) in VAULT_PATHS {
+                for catch in [false, true] {
+                    if outer == Outer::RouterSends && catch {
+                        continue;
+                    }
+                    for gen in [false, true] {
+                        v.push(InLoan { outer, inner: inner.to_string(), catch, gen, dummy: false });
+                    }
+                }
+            }
+        }
         v
     }
 
@@ -1241,7 +1668,8 @@ impl Engine for Toggles {
                 let path = ws[1];
                 let Some(&(_, named)) = paths_of(self.kind).iter().find(|(n, _)| *n == path) else { return "bad-op".into() };
                 let cur = self.sets.last().copied().unwrap_or([true, true, true]);
-                let (base, base_after) = self.twin_of(path);
+                let job = Job::Path(path.to_string());
+                let Twin { outcome: base, after: base_after, .. } = self.twin_of(&job);
                 let reenabled = self.sets.len() >= 2 && cur == [true, true, true];
                 let sets = self.sets.clone();
                 let desc = |what: &str| {
@@ -1255,9 +1683,12 @@ impl Engine for Toggles {
                         what
                     )
                 };
-                match run_on_fresh(self.kind, self.funded, &self.sets, &self.writes, path, self.amt) {
+                match run_on_fresh(self.kind, self.funded, &self.sets, &self.writes, &job, self.amt) {
                     Outcome::Ok(r) => {
                         let disabled = named.map(|i| !cur[i]).unwrap_or(false);
+                        mon.check("C17", "call_leaves_switches", r.flags_after == cur, || {
+                            desc(&format!("the switches read {:?} after the call", r.flags_after))
+                        });
                         if disabled {
                             mon.check("C17", "disabled_rejected", !r.ok(), || desc("switch off but the call succeeded"));
                             mon.check("C17", "disabled_unchanged", r.unchanged, || {
@@ -1288,7 +1719,7 @@ impl Engine for Toggles {
                         }
                         let f = format!(
                             "{} named={}",
-                            Self::flags_str(cur),
+                            Self::flags_str(r.flags_after),
                             match named {
                                 Some(0) => "a",
                                 Some(1) => "b",
@@ -1298,6 +1729,142 @@ impl Engine for Toggles {
                         );
                         if r.ok() {
                             format!("ok {f}")
+                        } else {
+                            format!("{} unchanged={} {f}", r.outcome, r.unchanged as u8)
+                        }
+                    }
+                    Outcome::Err(e) => {
+                        mon.check("C17", "world_builds", false, || desc(&format!("world build failed: {e}")));
+                        "err".into()
+                    }
+                    Outcome::Panic => {
+                        mon.check("C17", "no_panic", false, || desc("panicked"));
+                        "panic".into()
+                    }
+                }
+            }
+            Some("inloan") => {
+                if !self.kind.is_vault() || ws.len() != 8 {
+                    return "bad-op".into();
+                }
+                let Some(j) = Self::parse_inloan(&ws) else { return "bad-op".into() };
+                let Some(&(_, inner_named)) = VAULT_PATHS.iter().find(|(n, _)| *n == j.inner) else { return "bad-op".into() };
+                let cur = self.sets.last().copied().unwrap_or([true, true, true]);
+                let job = Job::InLoan(j.clone());
+                let twin = self.twin_of(&job);
+                let reenabled = self.sets.len() >= 2 && cur == [true, true, true];
+                let sets = self.sets.clone();
+                let (kind, funded, amt) = (self.kind, self.funded, self.amt);
+                let tok = j.token();
+                let desc = |what: &str| format!("{} funded={} amt={} sets={:?} {} : {}", kind.name(), funded as u8, amt, sets, tok, what);
+                let sw = |n: Option<usize>| match n {
+                    Some(0) => "a",
+                    Some(1) => "b",
+                    Some(2) => "c",
+                    _ => "-",
+                };
+                match run_on_fresh(kind, funded, &self.sets, &self.writes, &job, amt) {
+                    Outcome::Ok(r) => {
+                        // the loan is an invocation of "flash loan", the inner message one of its own operation
+                        let outer_off = !cur[2];
+                        let inner_off = inner_named.map(|i| !cur[i]).unwrap_or(false);
+                        mon.check("C17", "call_leaves_switches", r.flags_after == cur, || {
+                            desc(&format!("the switches read {:?} after the transaction", r.flags_after))
+                        });
+                        if outer_off {
+                            mon.check("C17", "disabled_rejected", !r.ok(), || desc("flash loans are off but the loan transaction succeeded"));
+                            mon.check("C17", "disabled_unchanged", r.unchanged, || {
+                                desc("flash loans are off: balances or storage differ after the transaction")
+                            });
+                            mon.stat("inloan_outer_disabled");
+                        } else if inner_off {
+                            // ---- C17: the paused operation is refused on the in-callback path as well …
+                            mon.check("C17", "disabled_rejected_in_callback", r.inner != Some(true) && (j.catch || !r.ok()), || {
+                                desc(&format!(
+                                    "switch {} is off but the message sent from inside the flash-loan callback went through (transaction {}, borrower recorded {:?})",
+                                    sw(inner_named), r.outcome, r.inner
+                                ))
+                            });
+                            if !j.catch {
+                                // … its error fails the loan, nothing moves
+                                mon.check("C17", "disabled_unchanged_in_callback", r.unchanged, || {
+                                    desc("paused inner operation (plain message): balances or storage differ after the transaction")
+                                });
+                                mon.stat("inloan_inner_disabled_plain");
+                            } else {
+                                // … nothing moves on its account, and the loan around it goes on as it would
+                                // around any failing message (same switches, inner message replaced)
+                                let mut d = j.clone();
+                                d.dummy = true;
+                                match run_on_fresh(kind, funded, &self.sets, &self.writes, &Job::InLoan(d), amt) {
+                                    Outcome::Ok(reference) => {
+                                        mon.check("C17", "disabled_unchanged_in_callback", r.after == reference.after, || {
+                                            desc("paused inner operation (caught): balances or storage differ from the same loan around a message that fails")
+                                        });
+                                        mon.check("C17", "loan_unaffected_by_paused_inner", r.outcome == reference.outcome, || {
+                                            desc(&format!(
+                                                "paused inner operation (caught): the loan ended {} but {} around a message that fails (err={})",
+                                                r.outcome, reference.outcome, r.err
+                                            ))
+                                        });
+                                    }
+                                    _ => mon.check("C17", "world_builds", false, || desc("reference world failed")),
+                                }
+                                mon.stat(&format!("inloan_inner_disabled_caught_loan_{}", r.outcome));
+                            }
+                        } else {
+                            mon.check("C17", "enabled_same_outcome_as_twin", r.outcome == twin.outcome && r.inner == twin.inner, || {
+                                desc(&format!(
+                                    "outcome {} inner {:?} but twin (all switches on) {} inner {:?} err={}",
+                                    r.outcome, r.inner, twin.outcome, twin.inner, r.err
+                                ))
+                            });
+                            mon.check("C17", "enabled_same_effect_as_twin", r.after_mod_cfg == twin.after, || {
+                                desc("balances/storage after the transaction differ from the twin world")
+                            });
+                            if reenabled {
+                                mon.check(
+                                    "C17",
+                                    "reenable_restores",
+                                    r.outcome == twin.outcome && r.inner == twin.inner && r.after_mod_cfg == twin.after,
+                                    || desc("after re-enabling, behaviour differs from the never-paused twin"),
+                                );
+                            }
+                            mon.stat(&format!("inloan_enabled_{}", r.outcome));
+                        }
+                        if !r.ok() {
+                            mon.check("C17", "rejected_unchanged", r.unchanged, || desc("rejected transaction changed balances or storage"));
+                        }
+                        // ---- statistics: which in-callback paths were reached, and how the inner message ended
+                        mon.stat(&format!("inloan_{}_{}_{}", j.outer.name(), if j.catch { "caught" } else { "plain" }, r.outcome));
+                        // (a failed transaction shows the outermost error only: the loan's own when flash loans are off)
+                        let e = if r.ok() { &r.inner_err } else { &r.err };
+                        let inner_kind = if outer_off {
+                            "not_sent_loan_paused"
+                        } else {
+                            match r.inner {
+                                Some(true) => "ok",
+                                None if r.ok() => "ok_plain",
+                                _ if e.contains("not enabled") => "refused_paused",
+                                _ if e.contains("while flash-loaning") => "refused_deposit_during_loan",
+                                _ if e.contains("Unauthorized") => "refused_unauthorized",
+                                _ if e.contains("outside contract") => "refused_external_callback",
+                                _ if e.contains("doesn't match the asset") => "refused_asset_mismatch",
+                                // cw-multi-test hands `reply` the outermost error context only
+                                Some(false) => "refused_caught_reason_hidden",
+                                None if e.contains("Final desired amount") => "tx_failed_not_repaid",
+                                None => "tx_failed_other",
+                            }
+                        };
+                        mon.stat(&format!("inloan_inner_{}_{}", j.inner, inner_kind));
+                        let f = format!("{} named=c/{}", Self::flags_str(r.flags_after), sw(inner_named));
+                        if r.ok() {
+                            let i = match r.inner {
+                                Some(true) => "ok",
+                                Some(false) => "err",
+                                None => "-",
+                            };
+                            format!("ok {f} inner={i}")
                         } else {
                             format!("{} unchanged={} {f}", r.outcome, r.unchanged as u8)
                         }
@@ -1343,10 +1910,41 @@ impl Engine for Toggles {
                 }
                 v
             };
+            // vaults: every entry point again, sent from inside a flash-loan callback of the vault (round 0:
+            // the whole matrix of senders x inner entry points x plain / caught x exact / generous repayment;
+            // later rounds: a PRNG sample of it, with PRNG amounts)
+            let matrix = if self.variant.is_vault() { Self::inloan_matrix() } else { vec![] };
+            let mut push_inloans = |plan: &mut Vec<String>, rng: &mut Rng| {
+                if matrix.is_empty() {
+                    return;
+                }
+                if round == 0 {
+                    for j in &matrix {
+                        plan.push(j.token());
+                    }
+                } else {
+                    for _ in 0..10 {
+                        plan.push(rng.pick(&matrix).token());
+                    }
+                }
+            };
             for (p, _) in paths_of(self.variant) {
                 plan.push(format!("path {p}"));
             }
-            if round == 0 {
+            push_inloans(&mut plan, rng);
+            if round >= 1 && self.variant.is_vault() {
+                // the switches are flipped once more between operations: a second combination, written by
+                // naming only the switches that change
+                let g = rng.below(8);
+                let g = [g & 1 != 0, g & 2 != 0, g & 4 != 0];
+                let o = |k: usize| if g[k] == f[k] { "-".to_string() } else { (g[k] as u8).to_string() };
+                plan.push(format!("setp {} {} {}", o(0), o(1), o(2)));
+                for (p, _) in paths_of(self.variant) {
+                    plan.push(format!("path {p}"));
+                }
+                push_inloans(&mut plan, rng);
+                plan.push("set 1 1 1".into());
+            } else if round == 0 {
                 plan.push("set 1 1 1".into());
             } else if round % 3 == 2 {
                 plan.push("setw 1 1 1".into());
@@ -1359,6 +1957,7 @@ impl Engine for Toggles {
             for (p, _) in paths_of(self.variant) {
                 plan.push(format!("path {p}"));
             }
+            push_inloans(&mut plan, rng);
             plan.reverse();
             self.plan = plan;
             return Some(format!("init toggles kind={} funded={} amt={}", self.variant.name(), funded, amt));
@@ -1366,8 +1965,15 @@ impl Engine for Toggles {
         let l = self.plan.pop()?;
         if let Some(p) = l.strip_prefix("path ") {
             let p = p.to_string();
-            let (base, _) = self.twin_of(&p);
+            let base = self.twin_of(&Job::Path(p.clone())).outcome;
             return Some(format!("path {p} base={base}"));
+        }
+        if l.starts_with("inloan ") {
+            let ws: Vec<&str> = l.split_whitespace().collect();
+            if let Some(j) = Self::parse_inloan(&ws) {
+                let (base, ibase, fbase) = self.inloan_bases(&j);
+                return Some(format!("{l} base={base} ibase={ibase} fbase={fbase}"));
+            }
         }
         Some(l)
     }
@@ -1418,10 +2024,11 @@ pub mod completeness {
             vault::ExecuteMsg::Withdraw {} => &["vaultWithdrawDirect"],
             vault::ExecuteMsg::FlashLoan { .. } => &["vaultFlashLoan", "vaultRouterLoan"],
             vault::ExecuteMsg::CollectProtocolFees {} => &["vaultCollectFees"],
-            vault::ExecuteMsg::UpdateConfig(_) => &["set"],
+            vault::ExecuteMsg::UpdateConfig(_) => &["set", "vaultConfigStranger"],
             vault::ExecuteMsg::Receive(_) => &["vaultWithdrawHook"],
-            // only callable by the vault itself, inside a flash loan
-            vault::ExecuteMsg::Callback(_) => &[],
+            // only callable by the vault itself, inside a flash loan; sent by outsiders (and by the borrower
+            // from inside a callback) as `vaultCallbackExternal`
+            vault::ExecuteMsg::Callback(_) => &["vaultCallbackExternal"],
         }
     }
     pub fn vault_hook(m: &vault::Cw20HookMsg) -> &'static [&'static str] {
